@@ -325,18 +325,21 @@ def _alarm(signum, frame):
 
 
 def run_real(case, threads=None):
-    """build, call, observe (under a watchdog: a call that does not return within 30 s is an observation 'hang')"""
+    """build, call, observe — under a watchdog: a call that does not return within 30 s is run once more with 300 s (a
+    loaded machine is not a hang); if it still does not return, the observation is 'Hang'"""
     import signal
-    old = signal.signal(signal.SIGALRM, _alarm)
-    signal.setitimer(signal.ITIMER_REAL, 30.0)
-    try:
-        return run_real_(case, threads)
-    except CaseTimeout:
-        return {"outcome": "raise", "exc": "Hang", "msg": "no return within 30 s", "before": {"self": None, "others": [], "out": None},
-                "after": None, "ran": None}
-    finally:
-        signal.setitimer(signal.ITIMER_REAL, 0)
-        signal.signal(signal.SIGALRM, old)
+    for limit in (30.0, 300.0):
+        old = signal.signal(signal.SIGALRM, _alarm)
+        signal.setitimer(signal.ITIMER_REAL, limit)
+        try:
+            return run_real_(case, threads)
+        except CaseTimeout:
+            pass
+        finally:
+            signal.setitimer(signal.ITIMER_REAL, 0)
+            signal.signal(signal.SIGALRM, old)
+    return {"outcome": "raise", "exc": "Hang", "msg": "no return within 300 s", "before": {"self": None, "others": [], "out": None},
+            "after": None, "ran": None}
 
 
 def run_real_(case, threads=None):
@@ -1214,7 +1217,8 @@ def main(R):
                      "batch_size= is passed as torch.Size and device= as torch.device (a list / str never compares equal to out.batch_size / out.device)",
                      "gray combinations (listed in the input distribution as gray:*) are compared with the model only; the oracle demands nothing there but the frame",
                      "with inplace + out= + default= the non-tensor payloads of out equal those of self (the code aliases entry objects there, the functional model does not)",
-                     "lazy stacks through the stacked view (batch_size override), lazy stacks with a thread pool and aliased operands are checked by the oracle only"]
+                     "lazy stacks through the stacked view (batch_size override), lazy stacks with a thread pool and aliased operands are checked by the oracle only",
+                     "the model of the thread-pool form follows /repo's working tree (repairs of S15 / S16 / C12-b / C12-c / C20-d in _multithread_apply_flat / _multithread_rebuild)"]
     R.trusted = ["harness/c20_ref.py: the reference (nested dicts) is my reading of the documented contract of apply"]
     t00 = time.time()
     R.step_prove()
@@ -1281,12 +1285,19 @@ def main(R):
 def replay(body):
     case = body["case"]
     print("case:", json.dumps(case))
-    print("reference:", REF.reference(case))
-    print("gray:", REF.gray_reasons(case), "patterns:", pattern_flags(case))
+    if case["kind"] == "lazy":
+        print("reference:", lazy_reference(case))
+    else:
+        print("reference:", REF.reference(case))
+        print("gray:", REF.gray_reasons(case), "patterns:", pattern_flags(case))
     real = run_real(case)
     print("implementation:", json.dumps(summarize(real), default=str))
     from .core import run_model, build_driver
+    line = model_line(case, case.get("perm"))
+    if line is None:
+        print("model: not applicable to this case (oracle only)")
+        return 0
     build_driver("C20")
-    m = run_model("C20", [model_line(case, real.get("ran"))])[0]
+    m = run_model("C20", [line])[0]
     print("model:", json.dumps(model_obs(case, m), default=str))
     return 0
